@@ -258,6 +258,11 @@ def member_value(rng, kind, h):
 
 
 CORPUS = [
+ # Union selected by NAME with anonymous members around the selected one: the position afterwards is that member's end
+ ('Struct("u"/Union("body", Const(b"M"), "tag"/Byte, "body"/Int32ub, "half"/Int16ub), "after"/Tell)', dict(u=dict(body=1297436739)), {}),
+ ('Struct("u"/Union("half", "tag"/Byte, Padding(3), Const(b"M"), "half"/Int16ub, "body"/Int32ub), "t"/Byte)', dict(u=dict(half=19789), t=5), {}),
+ ('Sequence(Union("b", Const(b"A"), Const(b"A"), "a"/Int16ub, "b"/Byte), GreedyBytes)', [dict(b=65), b'xy'], {}),
+ ('Struct("u"/Union(2, Const(b"M"), "tag"/Byte, "body"/Int32ub, "half"/Int16ub), "after"/Tell)', dict(u=dict(body=1297436739)), {}),
 ('Const(b"ab", ByteSwapped(Bytes(2)))', None, {}),
  ('Struct("a"/Byte, "d"/Default(Byte, this.a + 1))', dict(a=3), {}),
  ('Struct("a"/Byte, "d"/Default(Byte, this.a + 1))', dict(a=3, d=None), {}),
@@ -393,6 +398,31 @@ def run(tier, seed):
         acc.check('compiled_parse', src, data=data + b'\x00', kw=kw)
         cases.append(dict(src=src, op='cparse', data=data, kw=kw))
         cases.append(dict(src=src, op='cparse', data=data[:-1], kw=kw))
+    # ---- two-feature interactions: every wrapper class over every kind of inner construct ----
+    _delim = set(x for x, _ in C.pairs(selfdelimiting=True))
+    for src, obj in C.pairs():
+        if 'lambda' in src or not C.constructible(src):
+            continue
+        if src.startswith('Lazy') and src not in _delim:
+            continue                     # a lazily skipped member behind a read-to-end one: the failure surfaces only on access
+        c, cc, why = compiled(src)
+        if cc is None:
+            continue
+        acc.check('compiled_build', src, obj=obj, kw={})
+        acc.check('compiled_sizeof', src, kw={})
+        cases.append(dict(src=src, op='cbuild', obj=obj, kw={}))
+        try:
+            data = c.build(obj)
+        except BaseException:
+            continue
+        if src.startswith('Peek('):
+            continue                     # builds nothing: every input it is given here is truncated for the inner construct
+        acc.check('compiled_parse', src, data=data, kw={})
+        if not src.startswith(('Optional(', 'Select(', 'GreedyRange(')):
+            # (wrappers that turn a failure of the inner construct into a value see the compiled code read short where the
+            #  interpreter raises: nothing is claimed on truncated input, C04_ex_differs_outside)
+            acc.check('compiled_parse', src, data=data + b'\x01', kw={})
+        cases.append(dict(src=src, op='cparse', data=data, kw={}))
     # ---- expression-parametrised members inside the host ----
     rounds = 6 if quick else 40
     for rd in range(rounds):
